@@ -73,7 +73,16 @@ def _roles(node):
     """roles of the names in a loop of the function, read off its syntax (so that renamed locals keep their contract):
     idx  = the name advanced by `+= 1`            acc = the name whose .append is called
     src  = the name subscripted by idx"""
-    idx = acc = src = None
+    idx = acc = src = guard = None
+    for st in node.body:
+        # an append guarded by a test that the loop does not change:  if <guard>: acc.append(...)
+        if isinstance(st, ast.If) and not st.orelse and any(isinstance(c, ast.Call) and isinstance(c.func, ast.Attribute) and c.func.attr == 'append'
+                                                             for c in ast.walk(st)):
+            assigned = set(t.id for n in ast.walk(node) for t in (getattr(n, 'targets', None) or [getattr(n, 'target', None)])
+                           if isinstance(t, ast.Name))
+            if not any(isinstance(n, ast.Name) and n.id in assigned for n in ast.walk(st.test)) \
+                    and not any(isinstance(n, ast.Call) for n in ast.walk(st.test)):
+                guard = st.test
     for n in ast.walk(node):
         if isinstance(n, ast.AugAssign) and isinstance(n.op, ast.Add) and isinstance(n.target, ast.Name) \
                 and isinstance(n.value, ast.Constant) and n.value.value == 1 and idx is None:
@@ -84,18 +93,18 @@ def _roles(node):
             acc = n.func.value.id
         if isinstance(n, ast.Subscript) and isinstance(n.value, ast.Name) and isinstance(n.slice, ast.Name) and n.slice.id == idx and src is None:
             src = n.value.id
-    return idx, acc, src
+    return idx, acc, src, guard
 
 
 def classify(node):
     """loop contract of rebuild_optimized_asm_block chosen by the shape of the loop"""
     if any(isinstance(n, (ast.For, ast.While)) and n is not node for n in ast.walk(node)):
         return None                                            # the loop over the sub-blocks is unrolled (their number is enumerated)
-    idx, acc, src = _roles(node)
+    idx, acc, src, guard = _roles(node)
     if idx is not None and acc is not None and src is not None:
         if isinstance(node, ast.While) and any(isinstance(n, ast.Compare) and isinstance(n.ops[0], ast.NotEq) for n in ast.walk(node.test)):
-            return _CopyLoop('prefix', idx, acc, src), 'copy-prefix'
-        return _CopyLoop('kept' if isinstance(node, ast.For) else 'suffix', idx, acc, src), 'copy-segment' if isinstance(node, ast.For) else 'copy-rest'
+            return _CopyLoop('prefix', idx, acc, src, guard), 'copy-prefix'
+        return _CopyLoop('kept' if isinstance(node, ast.For) else 'suffix', idx, acc, src, guard), 'copy-segment' if isinstance(node, ast.For) else 'copy-rest'
     if idx is not None and acc is None and isinstance(node, ast.For):
         return _SkipLoop(idx), 'skip-replaced-segment'
     # any other innermost loop is held to the frame contract: it changes no list of the function
@@ -105,10 +114,11 @@ def classify(node):
 class _CopyLoop(LoopSpec):
     """loops that copy items prev[idx0 + j] to the output while advancing the index (prefix loop, kept-segment loop, suffix loop)"""
 
-    def __init__(self, kind, idx, acc, src):
-        self.kind, self.idx_name, self.acc_name, self.src_name = kind, idx, acc, src
+    def __init__(self, kind, idx, acc, src, guard=None):
+        self.kind, self.idx_name, self.acc_name, self.src_name, self.guard = kind, idx, acc, src, guard
 
     def enter(self, it, fr):
+        self.it = it
         self.idx0 = sym._as_int_expr(fr.locals[self.idx_name])
         if isinstance(fr.locals[self.acc_name], list):
             # the accumulator starts as a concrete (empty) list: from here on it is a rope of slices of the lists it copies from
@@ -118,6 +128,8 @@ class _CopyLoop(LoopSpec):
 
     def shape(self, fr, idx):
         prev = fr.locals[self.src_name]
+        if self.guard is not None and not self.it.truth(self.it.eval(self.guard, fr)):
+            return list(self.out0)            # the copy is switched off by a test the loop does not change: only the index advances
         return self.out0 + [(prev.arr, self.idx0, idx - self.idx0)]
 
     def havoc(self, it, fr, k):
